@@ -198,7 +198,9 @@ prop(
     title="Start is all-or-nothing and reports the real cause of failure",
     level="fault_enumeration",
     engine="real",
-    campaigns=[dict(bin="C04.rel", sweep=True, random=dict(quick=2000, thorough=40000))],
+    campaigns=[dict(bin="C04.rel", sweep=True, random=dict(quick=2000, thorough=40000)),
+               # Windows half on engine W: every allocation and every Win32 call of process_start fails in turn
+               dict(bin="C04win", sweep=True, random=dict(quick=2000, thorough=40000), workers=4)],
     level_text=("Every system/library call that reproc_start makes - in the parent and in the forked child before exec - is a fault point discovered from a fault-free run of each scenario; "
                 "quick enumerates every (scenario, fault point, first two applicable errnos) singly, thorough every applicable errno and pairs (second fault at each of the next 120 "
                 "fault points of the path actually taken under the first). Outcome-based oracle: failure => the errno of a real cause, no child left, handle restartable; success => "
@@ -208,7 +210,7 @@ prop(
     technique="exhaustive single-fault and paired-fault injection at the libc boundary (both sides of fork) + rapidcheck-sampled fault plans, outcome oracle with the child's own report",
     rule=(FAULT_SCENARIOS + " x every fault point x errnos. Non-trivial: a naturally failing scenario, a child-side fault, or a parent-side fault after the first call (something to undo). "
           "Distinct: (scenario, side, call index, call, errno/kind) of every fault."),
-    essential=dict(quick=["fault-free", "single-fault", "start-failed", "start-succeeded-under-fault", "scenario:fork-mode", "scenario:missing-program"],
+    essential=dict(quick=["fault-free", "single-fault", "start-failed", "start-succeeded-under-fault", "scenario:fork-mode", "scenario:missing-program", "win-alloc-fault", "win-api-fault"],
                    thorough=["fault-free", "single-fault", "fault-pair", "start-failed", "start-succeeded-under-fault"]),
     exhaustive=dict(quick=True, thorough=True),
     exhaustive_scope="all single fault points (first two errnos each in quick, all in thorough) of the 17 scenarios on both sides of fork; pairs are bounded (next 120 points, one errno each)",
@@ -216,6 +218,7 @@ prop(
         "RLIMIT_NOFILE is lowered to 64 during start so that the child's descriptor-closing loop stays short; its probing fcntl(F_GETFD) calls are not fault points",
         "faults inside libc (e.g. execvp's PATH walk) are injected at the execvp boundary only; clock_gettime is not injected",
         "an injected close failure still releases the descriptor (Linux semantics)",
+        "Windows half: process_start of process.windows.c on stub headers with an injected failure at each allocation (10) and each Win32 call (5 functions x 6 ordinals x 4 error codes) for four argv/env shapes; also the exit-code mapping of process_wait",
     ],
 )
 
